@@ -161,6 +161,8 @@ def build_alphabet(darsia):
 
         if kind.endswith("_big") or kind.endswith("_big_aa"):
             shape = (8, 9)  # 72 cells: the reduced matrices are no longer stored with sorted indices
+        if kind.endswith("_shared_options"):
+            shape = (12, 11)
         if kind.endswith("_multilevel"):
             shape = (12, 11)  # 132 cells: pyamg builds a genuine hierarchy (more than max_coarse unknowns)
 
@@ -184,6 +186,8 @@ def build_alphabet(darsia):
             "bregman_big_aa": ("bregman", "pressure", "direct", 2),
             "newton_big": ("newton", "pressure", "direct", 0),
             "newton_aa_restart": ("newton", "full", "direct", 3),
+            "bregman_cg_shared_options": ("bregman", "pressure", "cg", 0),
+            "bregman_amg_shared_options": ("bregman", "pressure", "amg", 0),
         }[kind]
 
         def ctor():
@@ -191,6 +195,10 @@ def build_alphabet(darsia):
             if kind == "adaptive_homogeneous":
                 # one homogeneous penalty, adapted late in the run; the user-given L is far from the adapted value
                 opt.update({"bregman_homogeneous": True, "L": 10.0, "bregman_update": lambda it: it % 3 == 2})
+            if kind.endswith("_shared_options"):
+                # the caller keeps one dictionary of linear-solver options (only the iteration cap is set) and hands it to
+                # every solver he builds, whatever the back-end
+                opt["linear_solver_options"] = shared("LSO", lambda: {"maxiter": 200})
             if kind == "newton_aa_restart":
                 opt.update({"aa_restart": 2})
             if kind.startswith("bregman_L2"):
@@ -287,6 +295,8 @@ def build_alphabet(darsia):
         "mg_upd_B": lambda: mg_update_arrays("B"),
         "mg_upd_scalar": mg_update_scalar,
         "jac_arrays_h05": lambda: jac_arrays(0.5),
+        "w_cg_shared_options": lambda: wass("bregman_cg_shared_options", 0),
+        "w_amg_shared_options": lambda: wass("bregman_amg_shared_options", 0),
         "jac_arrays_h1": lambda: jac_arrays(1.0),
         # independent solver objects on a grid with the same voxel counts and another physical size
         "w_newton_other_domain": lambda: wass("newton_direct", 0, vs=(2.0, 0.5)),
@@ -308,12 +318,13 @@ LETTERS = [
     "mg2_small", "mg2_regular", "w_bregman_L2_A", "w_bregman_L2_B", "w_bregman_L2fr_A", "w_bregman_L2fr_B", "w_bregman_amg_custom",
     "w_bregman_big_A", "w_bregman_big_B", "w_bregman_big_aa_A", "w_bregman_big_aa_B", "w_newton_big_A", "w_newton_big_B",
     "tvd_obj_A", "tvd_obj_B", "tvd_obj_x0", "w_bregman_amg_multilevel_A", "w_bregman_amg_multilevel_B", "w_newton_cg_multilevel_A",
-    "mg_upd_scalar", "sb_caller_arrays_A", "sb_caller_arrays_B", "w_newton_other_domain", "w_bregman_other_domain", "w_newton_outputs_modified", "w_bregman_outputs_modified", "jac_arrays_h05", "jac_arrays_h1",
+    "mg_upd_scalar", "sb_caller_arrays_A", "sb_caller_arrays_B", "w_newton_other_domain", "w_bregman_other_domain", "w_newton_outputs_modified", "w_bregman_outputs_modified", "jac_arrays_h05", "jac_arrays_h1", "w_cg_shared_options", "w_amg_shared_options",
 ]
 # letters that can share state with each other (same object or same module-level default)
 GROUPS = {
     "jacobi": ["jac_h1", "jac_h05", "jac_params", "jac_3d"],
     "mg": ["mg_a", "mg_b"],
+    "w_shared_linear_solver_options": ["w_cg_shared_options", "w_amg_shared_options"],
     "jacobi_arrays": ["jac_arrays_h05", "jac_arrays_h1", "mg_het", "h1_mgarr_A"],
     "mg_het": ["mg_het"],
     "default_solver": ["h1_mu1", "h1_mu10", "h1_mu10_omega3", "h1_shapeB", "h1_rgb", "sb_mu05", "sb_mu2_ell1", "sb_shapeB", "tvd_het", "h1_3d_mu1"],
